@@ -10,3 +10,4 @@ import LettreVerif.Props.C10
 #print axioms LV.C10.roundtrip_base64
 #print axioms LV.C10.base64_lines
 #print axioms LV.C10.refusal_matrix
+#print axioms LV.C10.crlf_only_line_endings
